@@ -538,6 +538,19 @@ func checkC10(c *Check) {
 					ok, why = false, "a sibling can be passed over without its literal being compared"
 				}
 			}
+			// (4) the scan ends at the leaf itself: siblings registered LATER must not change the answer, because it
+			// is asked twice — at registration (enter the table?) and in Headers() (evict the entry?) — and must agree
+			for e := range self {
+				if e.S >= len(e.B.Succs) {
+					continue
+				}
+				if in, _ := (Query{Fn: fn}).Reach(e.B.Succs[e.S], 0, inSet(loads)); in != nil {
+					ok, why = false, "the scan goes on past the leaf itself: a twin registered later turns the answer false, so a leaf that entered the shortcut table is no longer evicted by Headers()"
+				}
+			}
+			if len(self) == 0 {
+				ok, why = false, "the scan never recognises the leaf itself: siblings registered later take part in the answer"
+			}
 			// (3) the scan is on every path to a true verdict
 			if in, _ := (Query{Fn: fn, Avoid: func(in ssa.Instruction) bool {
 				v, isV := in.(ssa.Value)
